@@ -101,6 +101,11 @@ Definition s_set_time (s : song) (tempo frac deno mshift : Z) : song :=
          (s_harmony_flag s) (s_harmony_time s) (s_harmony_events s) (s_octave_once s) (s_break_flag s)
          tempo frac deno mshift (s_play_from s) (s_lineno s) (s_logs s).
 
+Definition s_set_adds (s : song) (vadd qadd : Z) : song :=
+  mkSong (s_tracks s) (s_cur s) (s_timebase s) (s_key_flag s) (s_key_shift s) (s_use_key_shift s) vadd qadd
+         (s_harmony_flag s) (s_harmony_time s) (s_harmony_events s) (s_octave_once s) (s_break_flag s)
+         (s_tempo s) (s_timesig_frac s) (s_timesig_deno s) (s_measure_shift s) (s_play_from s) (s_lineno s) (s_logs s).
+
 (* add_log: bounded by SAKURA_MAX_LOGS *)
 Definition add_log (s : song) (msg : list ch) : song :=
   if SAKURA_MAX_LOGS <=? zlen (s_logs s) then s else s_set_logs s (s_logs s ++ [msg]).
@@ -121,9 +126,14 @@ Fixpoint add_tracks (n : nat) (timebase : Z) (tracks : list track) : list track 
   | O => tracks
   | S k => add_tracks k timebase (tracks ++ [track_new timebase (zlen tracks - 1)])
   end.
+(* a pending octave-once belongs to the track it was written on: it is undone before the switch *)
+Definition settle_octave_once (s : song) : song :=
+  if s_octave_once s =? 0 then s
+  else s_set_octave_once (upd_cur s (fun t => tr_set_octave t (tr_octave t - s_octave_once s))) 0.
 Definition change_cur_track (s : song) (no : nat) : song :=
-  let tracks := add_tracks (S no - length (s_tracks s)) (s_timebase s) (s_tracks s) in
-  s_set_cur (s_set_tracks s tracks) no.
+  let s0 := settle_octave_once s in
+  let tracks := add_tracks (S no - length (s_tracks s0)) (s_timebase s0) (s_tracks s0) in
+  s_set_cur (s_set_tracks s0 tracks) no.
 
 (* track_sync *)
 Definition track_sync (s : song) : song :=
